@@ -424,6 +424,11 @@ pub fn make_cfg(prop: &str, run_seed: u64) -> (RunCfg, Gen) {
     if ["C15", "C10", "C03", "C01", "C09", "C08", "C02", "C12"].contains(&prop) && run_seed % 5 == 1 {
         doc.chars = true;
     }
+    if ["C08", "C01", "C04", "C12"].contains(&prop) && run_seed % 7 == 3 {
+        // identified single objects containing each other, containment inverted by some edits
+        doc.chain = true;
+        doc.nested = false;
+    }
     if prop == "C03" || prop == "C11" {
         doc.nasty = true;
         doc.floats = rng.chance(3, 4);
